@@ -73,7 +73,7 @@ class FunctionVC(Executor):
             self.pure_depth -= 1
 
     def eval_old(self, e, s: St):
-        s0 = St(list(s.pc), dict(self.env0), self.heap0, [], list(s.fresh))
+        s0 = St(list(s.pc), {**s.env, **self.env0}, self.heap0, [], list(s.fresh))
         # `old` may mention result-independent locals only
         self.pure_depth += 1
         try:
@@ -197,6 +197,13 @@ class FunctionVC(Executor):
             return
         yield from self.apply_contract(key, contract, recv, args, kwargs, s)
 
+    def contract_imports(self, contract):
+        import importlib
+        out = {}
+        for name, mod in contract.get("imports", {}).items():
+            out[name] = lift(getattr(importlib.import_module(mod), name), name)
+        return out
+
     def bind_params(self, key, contract, recv, args, kwargs):
         fa = self.project.function_ast(key)
         a = fa.args
@@ -233,6 +240,7 @@ class FunctionVC(Executor):
     def apply_contract(self, key, contract, recv, args, kwargs, s: St):
         """Modular call: check requires, havoc modifies, assume ensures, fork declared raises."""
         bound = self.bind_params(key, contract, recv, args, kwargs)
+        bound.update(self.contract_imports(contract))
         name = key.split(":")[1]
         s.trace.append(("call", name, dict(bound)))
         cs = St(list(s.pc), dict(bound), s.heap, [], list(s.fresh))
@@ -340,7 +348,85 @@ class FunctionVC(Executor):
                 and e.left.id == "result" and not any(isinstance(n, ast.Name) and n.id == "result" for n in ast.walk(e.comparators[0])))
 
     def inline_spec(self, fobj, args, kwargs, s: St):
-        """Spec functions (contracts/spec.py) are evaluated by inlining their real AST, purely."""
+        """Spec functions (contracts/spec.py): as DEFINED functions (uninterpreted symbol + definitional axiom, keyed by the
+        simplified body so that evaluations in heaps that differ only in irrelevant places share the symbol); when that is
+        not possible they are inlined."""
+        if not kwargs and self.define_specs:
+            try:
+                yield s, self.defined_spec(fobj, args, s)
+                return
+            except Unsupported:
+                pass
+        yield from self.inline_spec_body(fobj, args, kwargs, s)
+
+    define_specs = True
+    _spec_defs: dict = {}
+
+    def defined_spec(self, fobj, args, s: St):
+        from .rewrite import HeapRewriter
+        name = fobj.__name__
+        ph, ph_vars, guards = [], [], []
+        for i, a in enumerate(args):
+            if isinstance(a, Val):
+                c = z3.Const(f"p_{name}_{i}", V)
+                ph.append(Val(c, a.ty))
+                ph_vars.append(c)
+                guards.append(smt.is_str(c) if a.ty == STR else smt.Alloc0(c))
+                guards += type_facts(Val(c, a.ty))
+            elif isinstance(a, BVal):
+                c = z3.Bool(f"p_{name}_{i}")
+                ph.append(BVal(c))
+                ph_vars.append(c)
+            elif isinstance(a, IVal):
+                c = z3.Int(f"p_{name}_{i}")
+                ph.append(IVal(c))
+                ph_vars.append(c)
+            elif isinstance(a, PyVal):
+                ph.append(a)
+            else:
+                raise Unsupported("spec arg kind")
+        s2 = St(list(s.pc), dict(s.env), s.heap, [], list(s.fresh))
+        n_pc, n_fresh = len(s2.pc), len(s2.fresh)
+        depth0 = smt.BINDER_DEPTH[0]
+        smt.BINDER_DEPTH[0] = 50 + 10 * self.inline_depth  # binder names inside definitions never clash with the caller's
+        self.pure_depth += 1
+        try:
+            res = list(self.inline_spec_body(fobj, ph, {}, s2))
+        finally:
+            self.pure_depth -= 1
+            smt.BINDER_DEPTH[0] = depth0
+        if len(res) != 1:
+            raise Unsupported("spec forks")
+        s3, v = res[0]
+        if len(s3.pc) != n_pc or len(s3.fresh) != n_fresh:
+            raise Unsupported("spec body introduces facts/allocations: inline instead")
+        if isinstance(v, BVal):
+            body, rng, wrap = v.b, z3.BoolSort(), lambda t: BVal(t)
+        elif isinstance(v, IVal):
+            body, rng, wrap = v.i, z3.IntSort(), lambda t: IVal(t)
+        elif isinstance(v, Val):
+            body, rng, wrap = v.t, V, lambda t, ty=v.ty: Val(t, ty)
+        else:
+            raise Unsupported("spec result kind")
+        rw = HeapRewriter([], getattr(self.model.decl, "REGION_ATTRS", []), s.fresh)
+        body = rw.rw(body)
+        key = (name, body.get_id(), tuple(str(x.sort()) for x in ph_vars))
+        ent = FunctionVC._spec_defs.get(key)
+        if ent is None:
+            f = z3.Function(f"spec_{name}!{len(FunctionVC._spec_defs)}", *[x.sort() for x in ph_vars], rng)
+            app = f(*ph_vars) if ph_vars else None
+            if app is None:
+                raise Unsupported("nullary spec")
+            ax = z3.ForAll(ph_vars, z3.Implies(z3.And(*guards) if guards else z3.BoolVal(True), app == body), patterns=[app])
+            ent = (f, body, ax)
+            FunctionVC._spec_defs[key] = ent
+        f, _, ax = ent
+        if not any(ax.get_id() == a.get_id() for a in self.extra_axioms):
+            self.extra_axioms.append(ax)
+        actual = [to_v(a, s) if isinstance(a, Val) else (a.b if isinstance(a, BVal) else a.i) for a in args if not isinstance(a, PyVal)]
+        return wrap(f(*actual))
+
+    def inline_spec_body(self, fobj, args, kwargs, s: St):
         fa = self.project.spec_ast(fobj.__name__)
         names = [x.arg for x in fa.args.args]
         env = dict(zip(names, args))
@@ -404,6 +490,7 @@ class FunctionVC(Executor):
                     v = Val(z3.Const(f"p_{extra.arg}", V), ty)
                     st.env[extra.arg] = v
                     st.assume(*type_facts(v, st), smt.Alloc0(v.t))
+        st.env.update(self.contract_imports(c))
         self.heap0 = heap0
         self.env0 = dict(st.env)
         if c.get("generator"):
@@ -433,11 +520,15 @@ class FunctionVC(Executor):
                 s.env["result"] = result
                 for k, en in enumerate(c.get("ensures", [])):
                     self.oblige(f"ensures{k}.path{n_ret}", "post", s, self.eval_clause(en, s), {"clause": en})
+                if c.get("mustfail"):
+                    # soundness guard (DESIGN 2.4 iii): a deliberately wrong postcondition must NOT be provable on every path
+                    self.oblige(f"mustfail.path{n_ret}", "mustfail", s, self.eval_clause(c["mustfail"], s), {"clause": c["mustfail"]}, aux=True)
                 for cls, cond in raises.items():
                     if cond in (True, "True"):
                         continue
-                    g = self.with_old(self.env0, self.heap0, lambda: self.eval_clause(cond, St(list(s.pc), dict(self.env0), self.heap0, [], list(s.fresh))))
-                    self.oblige(f"raises[{cls}].complete.path{n_ret}", "raise", s, z3.Not(g), {"clause": f"not ({cond})  [normal return only when the raise condition is false]"})
+                    neg = ast.UnaryOp(op=ast.Not(), operand=parse_clause(cond))
+                    g = self.with_old(self.env0, self.heap0, lambda: self.eval_clause(neg, St(list(s.pc), dict(self.env0), self.heap0, [], list(s.fresh))))
+                    self.oblige(f"raises[{cls}].complete.path{n_ret}", "raise", s, g, {"clause": f"not ({cond})  [normal return only when the raise condition is false]"})
                 for k, tp in enumerate(c.get("trace", [])):
                     self.oblige(f"trace{k}.path{n_ret}", "post", s, z3.BoolVal(bool(tp["check"](s.trace, "return"))), {"clause": tp["name"], "trace": summarize_trace(s.trace)})
             elif out.kind == "raise":
